@@ -352,7 +352,7 @@ def execute(sc):
             if st == "exc":
                 if f8 and v["sim_io"]:
                     continue  # fail-stop with the injected error in the cause chain: allowed
-                violation = {"kind": "spurious-exception", "site": sim.error_site or opname,
+                violation = {"kind": "deadlock" if v["type"] == "SimDeadlock" else "spurious-exception", "site": sim.error_site or opname,
                              "detail": f"{opname}: {v['type']}: {v['msg'][:200]}", "op_index": i}
             else:
                 d = digest(v)
